@@ -951,10 +951,15 @@ class VerilogOperator(ast.AST):
             
         str += self.op
 
-        if (isinstance(self.right, VerilogOperator)):
-            str += '(' + Python2VerilogTranspiler.toVerilog(self.right) + ')'
+        right = self.right
+        if (isinstance(right, list) and len(right) == 1):
+            # the comparators of a Compare node: the operand needs its parentheses like any other
+            right = right[0]
+
+        if (isinstance(right, VerilogOperator)):
+            str += '(' + Python2VerilogTranspiler.toVerilog(right) + ')'
         else:
-            str += Python2VerilogTranspiler.toVerilog(self.right)
+            str += Python2VerilogTranspiler.toVerilog(right)
 
         return str
 
